@@ -333,6 +333,20 @@ mod tests {
         assert!(path.is_some());
     }
 
+    /// An empty document's null sits at the `text.len()` sentinel, which puts
+    /// the open positions out of order and selects their dense (unsorted)
+    /// storage. Every node after it must still be found.
+    #[test]
+    fn test_locate_after_an_empty_document() {
+        let yaml = b"--- a\n---\n--- b\n";
+        let index = YamlIndex::build(yaml).unwrap();
+
+        assert_eq!(locate_offset(&index, yaml, 4), Some(".[0]".to_string()));
+        let found = locate_offset_detailed(&index, yaml, 14).expect("`b` is a node");
+        assert_eq!(found.expression, ".[2]");
+        assert_eq!(found.byte_range, (14, 15));
+    }
+
     #[test]
     fn test_can_use_dot_notation() {
         assert!(can_use_dot_notation("name"));
